@@ -14,6 +14,462 @@ def wf_desc(v) -> bool:
     return True
 
 
+# ----------------------------------------------------------------------------- histories (seeded round 2)
+# A case of kind "seq" is a history on ONE Const node and ONE leaf value object:
+#   {"kind": "seq", "steps": [{"leaf": val-desc, "ctx": [layer..], "lchg": how the leaf object reaches this
+#     description, "host": how the Const node comes to hold the root value [, "stub": outs]}, ...]}
+# lchg: "fresh" (built anew) | "same" (untouched) | "mut" (the live object is changed in place through public
+#   attributes) | "finish" (a function body stubbed with set_outputs() is completed with set_outputs(*wires))
+# host: "new" (add_const: a new node) | "newhugr" (add_const in a fresh outer Dfg) | "val" (hugr[c].op.val = v)
+#   | "op" (hugr[c].op = Const(v)) | "keep" (nothing: the node holds the very object that was changed in place)
+# ctx: wrappers rebuilt around the live leaf object at every moment (their own types are computed at construction,
+#   so a wrapper does not outlive a change of what it holds), innermost first:
+#   ["tuple", pre, post] ["some", pre] ["left", post, rtys] ["right", ltys, pre] ["sum", tag, other_rows]
+#   ["array", n] ["list", n] ["sarray", n, name] ["infunc", kind, reqs] (loaded inside another function value)
+# After every step the whole observation of a `val` case is taken again on the SAME node (type_(), serial form,
+# static port kind, a NEW load(node), the graph document).
+MUT_KINDS = ("func", "int", "float", "string", "list", "sarray", "sum", "unitsum", "ext")
+
+
+def wrap_desc(layer, d):
+    k, t = layer[0], tv.val_type_desc(d)
+    if k == "tuple":
+        return ["tuple", layer[1] + [d] + layer[2]]
+    if k == "some":
+        return ["some", layer[1] + [d]]
+    if k == "left":
+        return ["left", [d] + layer[1], layer[2]]
+    if k == "right":
+        return ["right", layer[1], layer[2] + [d]]
+    if k == "sum":
+        rows = [list(r) for r in layer[2]]
+        rows.insert(layer[1], [t])
+        return ["sum", layer[1], ["sum", rows], [d]]
+    if k == "array":
+        return ["array", [d] * layer[1], t]
+    if k == "list" or (k == "sarray" and not tv.desc_copyable(t)):
+        return ["list", [d] * layer[1], t]
+    if k == "sarray":
+        return ["sarray", [d] * layer[1], t, layer[2]]
+    if k == "infunc":
+        return ["func", layer[1], [["bool"]], [["const", d], ["in", 0]]] + ([layer[2]] if layer[1] == "dfgx" else [])
+    raise ValueError(layer)
+
+
+def wrap_obj(layer, d, o):
+    """The wrapper of wrap_desc(layer, d) built around the live object o (which d describes)."""
+    from hugr import val, ops
+    from hugr.build.dfg import Dfg, DfBase
+    k = layer[0]
+    B, T = tv.build_val, tv.build_ty
+    w = wrap_desc(layer, d)
+    if k == "tuple":
+        return val.Tuple(*[B(x) for x in layer[1]], o, *[B(x) for x in layer[2]])
+    if k == "some":
+        return val.Some(*[B(x) for x in layer[1]], o)
+    if k == "left":
+        return val.Left([o] + [B(x) for x in layer[1]], [T(x) for x in layer[2]])
+    if k == "right":
+        return val.Right([T(x) for x in layer[1]], [B(x) for x in layer[2]] + [o])
+    if k == "sum":
+        return val.Sum(w[1], T(w[2]), [o])
+    if w[0] == "array":
+        from hugr.std.collections.array import ArrayVal
+        return ArrayVal([o] * layer[1], T(w[2]))
+    if w[0] == "list":
+        from hugr.std.collections.list import ListVal
+        return ListVal([o] * layer[1], T(w[2]))
+    if w[0] == "sarray":
+        from hugr.std.collections.static_array import StaticArrayVal
+        return StaticArrayVal([o] * layer[1], T(w[2]), w[3])
+    if k == "infunc":
+        b = DfBase(ops.DFG([T(["bool"])], None, list(layer[2]))) if layer[1] == "dfgx" else Dfg(T(["bool"]))
+        b.set_outputs(b.load(o), b.inputs()[0])
+        return val.Function(b.hugr)
+    raise ValueError(layer)
+
+
+def step_desc(step):
+    d = step["leaf"]
+    for layer in step.get("ctx", []):
+        d = wrap_desc(layer, d)
+    return d
+
+
+def build_stub(d, outs):
+    """The function described by d (outputs []) as a builder whose outputs are still to be set to `outs`:
+    (value, builder, wires)."""
+    from hugr import val, ops
+    from hugr.build.dfg import Dfg, DfBase
+    kind, ins, reqs = d[1], d[2], tv.func_reqs(d)
+    tin = [tv.build_ty(t) for t in ins]
+    b = DfBase(ops.DFG(tin, None, list(reqs))) if kind == "dfgx" else Dfg(*tin)
+    wires = list(b.inputs())
+    res = [wires[o[1]] if o[0] == "in" else b.load(tv.build_val(o[1])) for o in outs]
+    b.set_outputs()                                     # stub: ins -> ()
+    return val.Function(b.hugr), b, res
+
+
+def mut_compatible(a, d) -> bool:
+    """Can a live object described by a be turned into one described by d through public attributes, with every
+    field the classes compute at construction kept consistent?"""
+    if a[0] != d[0] or a[0] not in MUT_KINDS or (a[0] == "bool"):
+        return False
+    if a[0] in ("list", "sarray"):
+        return a[2] == d[2]
+    return True
+
+
+def mutate(o, a, d):
+    from hugr import tys
+    B, T = tv.build_val, tv.build_ty
+    k = d[0]
+    if k == "func":
+        o.body = tv.build_func_body(d[1], d[2], d[3], tv.func_reqs(d))
+    elif k == "int":
+        o.v, o.width = d[1], d[2]
+    elif k in ("float", "string"):
+        o.v = d[1]
+    elif k in ("list", "sarray"):
+        if len(d[1]) > len(a[1]) and d[1][:len(a[1])] == a[1]:
+            for x in d[1][len(a[1]):]:
+                o.v.append(B(x))                         # one more entry, in place
+        else:
+            o.v = [B(x) for x in d[1]]
+        if k == "sarray":
+            o.name = d[3]
+    elif k == "sum":
+        o.tag, o.typ, o.vals = d[1], T(d[2]), [B(x) for x in d[3]]
+    elif k == "unitsum":
+        o.tag = d[1]
+        if d[2] != a[2]:
+            o.typ = tys.UnitSum(d[2])
+    elif k == "ext":
+        o.name, o.typ, o.extensions = d[1], T(d[2]), list(d[3])
+    else:
+        raise ValueError(d)
+
+
+def observe_moment(dfg, c, v):
+    """What a `val` case observes, on the live node c (which holds v) of the live outer graph."""
+    from hugr import tys, ops
+    obs = {"built": True, "type": v.type_()}
+    try:
+        obs["serial"] = v._to_serial_root().model_dump(mode="json")
+    except Exception as e:
+        obs["serial_exc"] = type(e).__name__
+    try:
+        h = dfg.hugr
+        if h[c].op.val is not v:
+            raise TypeError("the Const node does not hold the value")
+        l1 = dfg.load(v)
+        c1 = next(iter(h.linked_ports(l1.inp(0)))).node
+        l2 = dfg.load(c)                                    # a NEW LoadConst for the node that lived through the history
+        ports, nin, linked = [], 0, True
+        for cn, l in ((c1, l1), (c, l2)):
+            if not isinstance(h[cn].op, ops.Const) or not isinstance(h[l].op, ops.LoadConst):
+                raise TypeError("load did not build Const / LoadConst")
+            kc, ki, ko = h.port_kind(cn.out(0)), h.port_kind(l.inp(0)), h.port_kind(l.out(0))
+            if not (isinstance(kc, tys.ConstKind) and isinstance(ki, tys.ConstKind) and isinstance(ko, tys.ValueKind)):
+                raise TypeError("unexpected port kinds")
+            sig = h[l].op.outer_signature()
+            if len(sig.output) != 1:
+                raise TypeError("LoadConst with %d outputs" % len(sig.output))
+            ports += [kc.ty, ki.ty, ko.ty, sig.output[0], h[l].op.type_]
+            nin += len(sig.input)
+            linked = linked and h.has_link(cn.out(0), l.inp(0))
+        doc = json.loads(h.to_json())
+        nodes = doc["nodes"]
+        if [nodes[x.idx]["op"] for x in (c1, c, l1, l2)] != ["Const", "Const", "LoadConstant", "LoadConstant"]:
+            raise TypeError("serialised graph does not hold the Const / LoadConstant nodes at their indices")
+        obs["ports"] = ports
+        obs["datatypes"] = [nodes[l1.idx]["datatype"], nodes[l2.idx]["datatype"]]
+        obs["const_docs_equal"] = "serial" in obs and all(
+            tv.jval(nodes[x.idx]["v"]) == tv.jval(obs["serial"]) for x in (c1, c))
+        obs["nin"], obs["linked"] = nin, bool(linked)
+    except Exception as e:
+        obs["ports_exc"] = type(e).__name__
+    return obs
+
+
+def observe_seq(case):
+    from hugr import ops
+    from hugr.build.dfg import Dfg
+    moments, did = [], []
+    dfg = c = leaf = root = None
+    pending = None                                        # (builder, wires, finished description) of a live stub
+    prev = None
+    for i, st in enumerate(case["steps"]):
+        d, ctx = st["leaf"], st.get("ctx", [])
+        try:
+            lchg = st.get("lchg", "fresh")
+            if i == 0 or leaf is None:
+                lchg = "fresh"
+            elif lchg == "finish" and not (pending and pending[2] == d):
+                lchg = "fresh"
+            elif lchg == "mut" and not mut_compatible(prev["leaf"], d):
+                lchg = "fresh"
+            elif lchg == "same" and prev["leaf"] != d:
+                lchg = "fresh"
+            old_leaf, old_root = leaf, root
+            if lchg == "fresh":
+                pending = None
+                if st.get("stub") is not None and d[0] == "func" and d[1] in ("dfg", "dfgx") and d[3] == []:
+                    leaf, b, res = build_stub(d, st["stub"])
+                    pending = (b, res, d[:3] + [st["stub"]] + d[4:])
+                else:
+                    leaf = tv.build_val(d)
+            elif lchg == "finish":
+                pending[0].set_outputs(*pending[1])
+                pending = None
+            elif lchg == "mut":
+                pending = None
+                mutate(leaf, prev["leaf"], d)
+            root, dd = leaf, d
+            for layer in ctx:
+                root, dd = wrap_obj(layer, dd, root), wrap_desc(layer, dd)
+            host = st.get("host", "val")
+            if i == 0 or c is None:
+                host = "newhugr"
+            elif host == "keep" and not (root is old_root):
+                host = "val"
+            if host == "newhugr":
+                dfg = Dfg()
+                dfg.set_outputs()                           # the outer graph is serialised at every moment
+                c = dfg.add_const(root)
+            elif host == "new":
+                c = dfg.add_const(root)
+            elif host == "val":
+                dfg.hugr[c].op.val = root
+            elif host == "op":
+                dfg.hugr[c].op = ops.Const(root)
+            did.append([lchg, host])
+            moments.append(observe_moment(dfg, c, root))
+        except Exception as e:
+            did.append(["raised", type(e).__name__])
+            moments.append({"built": False, "exc": type(e).__name__})
+            leaf = root = c = None
+            pending = None
+        prev = st
+    return {"built": True, "moments": moments, "did": did}
+
+
+
+def more_exts(sv) -> int:
+    """Number of std constants in a serial value whose `extensions` list names more than one extension."""
+    if not isinstance(sv, dict):
+        return 0
+    n = 0
+    if sv.get("v") == "Extension":
+        p = sv["value"]["v"]
+        shape = {"ConstInt": {"log_width", "value"}, "ConstF64": {"value"}, "ConstString": {"value"},
+                 "ArrayValue": {"values", "typ"}, "ListValue": {"values", "typ"},
+                 "StaticArrayValue": {"value", "name"}}.get(sv["value"]["c"])
+        # (a raw val.Extension that borrows a std constant's name over an opaque payload is not a std constant)
+        n += isinstance(p, dict) and set(p) == shape and len(set(sv["extensions"])) > 1
+        inner = p.get("value", p) if isinstance(p, dict) else {}
+        for x in (inner.get("values", []) if isinstance(inner, dict) else []):
+            n += more_exts(x)
+    for x in sv.get("vs", []):
+        n += more_exts(x)
+    return n
+
+
+def has_loaded(d) -> bool:
+    return (d[0] == "func" and d[1] == "load") or any(has_loaded(c) for c in tv.child_vals(d))
+
+
+def rand_layer(rng, d):
+    sib = lambda: [tv.rand_val(rng, 1) for _ in range(rng.choice([0, 0, 1, 2]))]
+    trow = lambda: [tv.rand_ty(rng, 1, False) for _ in range(rng.choice([0, 1]))]
+    k = rng.choice(["tuple", "tuple", "some", "left", "right", "sum", "array", "array", "list", "sarray", "infunc"])
+    if k == "tuple":
+        return ["tuple", sib(), sib()]
+    if k == "some":
+        return ["some", sib()]
+    if k == "left":
+        return ["left", sib(), trow()]
+    if k == "right":
+        return ["right", trow(), sib()]
+    if k == "sum":
+        rows = [[tv.rand_vty(rng, 1) for _ in range(rng.choice([0, 1]))] for _ in range(rng.choice([0, 1, 2]))]
+        return ["sum", rng.randint(0, len(rows)), rows]
+    if k in ("array", "list"):
+        return [k, rng.choice([1, 1, 2, 3])]
+    if k == "sarray":
+        return ["sarray", rng.choice([1, 2]), rng.choice(["tbl", "arr"])]
+    if has_loaded(d) and d[0] != "func":
+        return ["tuple", [], []]
+    return ["infunc"] + rng.choice([["dfg", []], ["dfgx", rng.sample(tv.REQ_EXTS, rng.choice([0, 1, 2]))]])
+
+
+def rand_ctx(rng, d):
+    ctx = []
+    for _ in range(rng.choice([0, 0, 0, 1, 1, 2])):
+        layer = rand_layer(rng, d)
+        ctx.append(layer)
+        d = wrap_desc(layer, d)
+    return ctx
+
+
+def ctx_valid(ctx, d) -> bool:
+    """A context drawn for one leaf is reused for another: `infunc` must not sit over a non-function value that
+    holds a function read back from JSON (its types are opaque, the printer of the enclosing body would not know)."""
+    for layer in ctx:
+        if layer[0] == "infunc" and has_loaded(d) and d[0] != "func":
+            return False
+        d = wrap_desc(layer, d)
+    return True
+
+
+def rand_inplace_pair(rng):
+    """Two descriptions of one kind that a live object can be moved between in place."""
+    k = rng.choice(["int", "int", "float", "string", "list", "list", "sarray", "sum", "sum", "unitsum", "ext"])
+    if k == "int":
+        w1, w2 = rng.randint(0, 6), rng.randint(0, 6)
+        return ["int", rng.randrange(1 << (1 << w1)), w1], ["int", rng.randrange(1 << (1 << w2)), w2]
+    if k == "float":
+        return ["float", 0.5], ["float", -2.25]
+    if k == "string":
+        return ["string", "a"], ["string", "hello"]
+    if k in ("list", "sarray"):
+        t = tv.rand_cvty(rng, 1) if k == "sarray" else tv.rand_vty(rng, 1)
+        items = lambda n: [tv.rand_val_of(rng, t, 1) for _ in range(n)]
+        a = items(rng.choice([0, 1, 2]))
+        b = a + items(rng.choice([1, 2])) if rng.random() < 0.6 else items(rng.choice([0, 1, 3]))
+        if k == "list":
+            return ["list", a, t], ["list", b, t]
+        return ["sarray", a, t, "tbl"], ["sarray", b, t, rng.choice(["tbl", "other"])]
+    if k == "sum":
+        row = lambda: [tv.rand_vty(rng, 1) for _ in range(rng.choice([0, 1, 1, 2]))]
+        t1 = ["sum", [row() for _ in range(rng.choice([1, 2, 3]))]]
+        t2 = t1 if rng.random() < 0.5 else ["sum", [row() for _ in range(rng.choice([1, 2, 3]))]]
+        mk = lambda t: (lambda tag: ["sum", tag, t, [tv.rand_val_of(rng, x, 1) for x in t[1][tag]]])(rng.randrange(len(t[1])))
+        return mk(t1), mk(t2)
+    if k == "unitsum":
+        n, m = rng.choice([1, 2, 3, 4]), rng.choice([1, 2, 3, 4])
+        return ["unitsum", rng.randrange(n), n], ["unitsum", rng.randrange(m), m]
+    t1, t2 = tv.rand_ty(rng, 1, False), tv.rand_ty(rng, 1, False)
+    return (["ext", "my_const", t1, rng.sample(tv.EXTS, rng.randint(0, 2))],
+            ["ext", rng.choice(["my_const", "other.const"]), t2, rng.sample(tv.EXTS, rng.randint(0, 2))])
+
+
+def rand_seq(rng):
+    r = rng.random()
+    steps = []
+    if r < 0.35:
+        # a function whose body is stubbed, observed, finished
+        while True:
+            f = tv.rand_func(rng, 2) if rng.random() < 0.5 else tv.rand_func_reqs(rng, 2)
+            if f[3]:
+                break
+        f = [f[0], "dfg" if len(f) == 4 else "dfgx"] + f[2:]
+        steps = [{"leaf": f[:3] + [[]] + f[4:], "stub": f[3]}, {"leaf": f, "lchg": "finish"}]
+    elif r < 0.47:
+        mk = lambda: tv.rand_func(rng, 2) if rng.random() < 0.5 else tv.rand_func_reqs(rng, 2)
+        steps = [{"leaf": mk()}, {"leaf": mk(), "lchg": "mut"}]
+    elif r < 0.7:
+        a, b = rand_inplace_pair(rng)
+        steps = [{"leaf": a}, {"leaf": b, "lchg": "mut"}]
+    else:
+        a = tv.rand_val(rng, rng.choice([0, 1, 1, 2]))
+        q = rng.random()
+        if q < 0.3 and a[0] in ("array", "list", "sarray") and a[1]:
+            b = [a[0], a[1] + [a[1][0]]] + a[2:]            # the table with one more entry
+        elif q < 0.45 and tv.child_vals(a):
+            b = rng.choice(tv.child_vals(a))
+        elif q < 0.6:
+            b = tv.rand_val_of(rng, tv.rand_vty(rng, 1), 1)
+        else:
+            b = tv.rand_val(rng, rng.choice([0, 1, 2]))
+        steps = [{"leaf": a}, {"leaf": b, "lchg": "fresh"}]
+    if rng.random() < 0.3:
+        q = rng.random()
+        last = steps[-1]["leaf"]
+        if q < 0.4:
+            steps.append({"leaf": last, "lchg": "same"})
+        elif q < 0.7 and mut_compatible(last, steps[0]["leaf"]) and "stub" not in steps[0]:
+            steps.append({"leaf": steps[0]["leaf"], "lchg": "mut"})
+        else:
+            steps.append({"leaf": tv.rand_val(rng, 1), "lchg": "fresh"})
+    ctx = rand_ctx(rng, steps[0]["leaf"])
+    shared = rng.random() < 0.7
+    for i, st in enumerate(steps):
+        c = ctx if shared else rand_ctx(rng, st["leaf"])
+        st["ctx"] = c if ctx_valid(c, st["leaf"]) else []
+        if i:
+            st["host"] = rng.choice(["keep", "keep", "keep", "val", "val", "val", "op", "op", "new", "newhugr"])
+    return {"kind": "seq", "steps": steps}
+
+
+def seq_corpus():
+    b, i5, q = ["bool"], ["int", 5], ["qubit"]
+    f = ["func", "dfg", [b], [["in", 0]]]
+    fx = ["func", "dfgx", [i5, b], [["in", 1], ["const", ["int", 3, 4]], ["in", 0]], ["arithmetic.int"]]
+    stub = lambda g: {"leaf": g[:3] + [[]] + g[4:], "stub": g[3]}
+    arr = lambda n: ["array", [["int", k, 5] for k in range(n)], i5]
+    S = lambda *steps: {"kind": "seq", "steps": list(steps)}
+    return [
+        # seeded C14-e: the serial body of a Function remembered across the completion of its body
+        S(stub(f), {"leaf": f, "lchg": "finish", "host": "keep"}),
+        S(stub(f), {"leaf": f, "lchg": "finish", "host": "newhugr", "ctx": [["tuple", [], [["bool", True]]]]}),
+        S({**stub(fx), "ctx": [["array", 2]]}, {"leaf": fx, "lchg": "finish", "host": "val", "ctx": [["array", 2]]}),
+        S(stub(fx), {"leaf": fx, "lchg": "finish", "host": "op", "ctx": [["infunc", "dfgx", ["e.one"]]]}),
+        S({"leaf": f}, {"leaf": ["func", "defn", [q], [["in", 0]]], "lchg": "mut", "host": "keep"}),
+        # seeded C14-f: the type of a Const node remembered across a change of the value it holds
+        S({"leaf": arr(2)}, {"leaf": arr(3), "lchg": "fresh", "host": "val"}),
+        S({"leaf": arr(2)}, {"leaf": arr(3), "lchg": "fresh", "host": "op"}),
+        S({"leaf": ["bool", True]}, {"leaf": ["tuple", [["bool", True]]], "lchg": "fresh", "host": "val"},
+          {"leaf": ["bool", True], "lchg": "fresh", "host": "val"}),
+        S(stub(f), {"leaf": f, "lchg": "finish", "host": "keep"}, {"leaf": f, "lchg": "same", "host": "new"}),
+        # std value objects changed in place
+        S({"leaf": ["int", 3, 5]}, {"leaf": ["int", 1, 2], "lchg": "mut", "host": "keep"}),
+        S({"leaf": ["list", [["bool", True]], b]}, {"leaf": ["list", [["bool", True], ["bool", False]], b], "lchg": "mut", "host": "keep"}),
+        S({"leaf": ["sarray", [], i5, "tbl"]}, {"leaf": ["sarray", [["int", 1, 5]], i5, "other"], "lchg": "mut", "host": "keep"}),
+        S({"leaf": ["sum", 0, ["sum", [[b], []]], [["bool", True]]]}, {"leaf": ["sum", 1, ["sum", [[b], []]], []], "lchg": "mut", "host": "keep"}),
+        S({"leaf": ["unitsum", 0, 3]}, {"leaf": ["unitsum", 1, 2], "lchg": "mut", "host": "keep"}),
+        S({"leaf": ["ext", "my_const", q, ["e.one"]]}, {"leaf": ["ext", "other.const", b, []], "lchg": "mut", "host": "keep"}),
+        S({"leaf": ["int", 3, 5], "ctx": [["some", []]]}, {"leaf": ["int", 3, 6], "lchg": "mut", "host": "val", "ctx": [["some", []]]}),
+        S({"leaf": ["float", 0.5]}, {"leaf": ["string", "x"], "lchg": "fresh", "host": "val"}),
+    ]
+
+
+
+def shrink_seq(case):
+    steps = case["steps"]
+    S = lambda st: {"kind": "seq", "steps": st}
+    if len(steps) > 2:
+        for i in range(len(steps)):
+            yield S(steps[:i] + steps[i + 1:])
+    # no wrappers at all, one layer less, wrappers without siblings
+    if any(st.get("ctx") for st in steps):
+        yield S([{**st, "ctx": []} for st in steps])
+        yield S([{**st, "ctx": st.get("ctx", [])[1:]} for st in steps])
+        yield S([{**st, "ctx": st.get("ctx", [])[:-1]} for st in steps])
+        bare = {"tuple": lambda l: ["tuple", [], []], "some": lambda l: ["some", []], "left": lambda l: ["left", [], []],
+                "right": lambda l: ["right", [], []], "sum": lambda l: ["sum", 0, []], "array": lambda l: ["array", 1],
+                "list": lambda l: ["list", 1], "sarray": lambda l: ["sarray", 1, l[2]], "infunc": lambda l: ["infunc", "dfg", []]}
+        slim = [{**st, "ctx": [bare[l[0]](l) for l in st.get("ctx", [])]} for st in steps]
+        if slim != steps:
+            yield S(slim)
+    for i, st in enumerate(steps):
+        if i and st.get("host") not in (None, "val", "keep"):
+            yield S(steps[:i] + [{**st, "host": "val"}] + steps[i + 1:])
+    # a stubbed function and its completion shrink together
+    for i, st in enumerate(steps[:-1]):
+        nx = steps[i + 1]
+        if st.get("stub") is not None and nx.get("lchg") == "finish":
+            for f in tv.shrink_val(nx["leaf"]):
+                if f[0] == "func" and f[1] in ("dfg", "dfgx") and f[3]:
+                    yield S(steps[:i] + [{**st, "leaf": f[:3] + [[]] + f[4:], "stub": f[3]}, {**nx, "leaf": f}] + steps[i + 2:])
+    for i, st in enumerate(steps):
+        if st.get("stub") is not None:
+            continue
+        if i + 1 < len(steps) or i == 0 or st.get("lchg") != "finish":
+            for v in tv.shrink_val(st["leaf"]):
+                if ctx_valid(st.get("ctx", []), v):
+                    yield S(steps[:i] + [{**st, "leaf": v}] + steps[i + 1:])
+
 class C14(fw.Prop):
     id = "C14"
     props_file = "props/C14.v"
@@ -30,8 +486,13 @@ class C14(fw.Prop):
             "stream (tag out of range, wrong / missing / extra field, wrong element, element / field type differing "
             "from the held function in the requirements only, width 7+, std constant name on an opaque payload, "
             "StaticArrayVal of a linear element).  Each case is also put on a Const node and loaded twice "
-            "(load(value), add_const + load(node)).  non-trivial = nesting depth >= 1 or a function / extension "
-            "constant")
+            "(load(value), add_const + load(node)).  Histories on ONE Const node and ONE live value object (2-3 "
+            "moments, the full observation at each): a stubbed function body completed with set_outputs, value "
+            "objects changed in place through their public fields (Function.body, IntVal, FloatVal, StringVal, "
+            "ListVal, StaticArrayVal, raw Sum, UnitSum, Extension), hugr[c].op.val re-assigned, the op replaced, a "
+            "new node in the same / a fresh graph, the leaf bare or under 1-2 wrappers rebuilt around it.  "
+            "non-trivial = nesting depth >= 1 or a function / extension constant; a history in which the value "
+            "changed")
     trusted = ["function bodies are abstracted to their root signature and the rows of their Input/Output nodes "
                "(read from the serialised body); constants nested inside a body are separate cases",
                "integer payloads: only the width is part of the judgment (IntVal does not range-check its value; "
@@ -81,7 +542,7 @@ class C14(fw.Prop):
             # the declared element / field type forgets (or invents) the requirements of the function it holds
             ["array", [["func", "dfgx", [], [], ["e.one"]]], ["func", [], [], []]],
             ["sum", 0, ["sum", [[["func", [], [], ["e.one"]]]]], [["func", "dfg", [], []]]],
-        ]]
+        ]] + seq_corpus()
 
     def generate(self, rng, tier, ctx):
         k = 1 if tier == "quick" else 7
@@ -121,12 +582,18 @@ class C14(fw.Prop):
             cases.append({"kind": "val", "broken": True, "val": rng.choice([
                 ["array", [f], t2], ["list", [f, f], t2], ["sum", 0, ["sum", [[t2]]], [f]]])})
             n += 1
+        # histories on one Const node / one value object: observe, change the value, observe again (answers
+        # remembered across a change: seeded C14-e, C14-f); drawn last, the streams above are unchanged
+        for _ in range(260 * k):
+            cases.append(rand_seq(rng))
         return cases
 
     # ------------------------------------------------------------------ implementation
     def observe(self, case, ctx):
         from hugr import tys, ops
         from hugr.build.dfg import Dfg
+        if case["kind"] == "seq":
+            return observe_seq(case)
         d = case["val"]
         try:
             v = tv.build_val(d)
@@ -175,40 +642,71 @@ class C14(fw.Prop):
         return obs
 
     def literal(self, case, obs, ctx):
-        e = tv.gvexpr(case["val"])
         std = ctx_std(ctx)
+        if case["kind"] == "seq":
+            return gapp("CSeq", std, glist(gapp("MVal", *self.fields(step_desc(st), o))
+                                           for st, o in zip(case["steps"], obs["moments"])))
+        return gapp("CVal", std, *self.fields(case["val"], obs))
+
+    @staticmethod
+    def fields(d, obs):
+        try:
+            e = tv.gvexpr(d)
+        except Exception:
+            # The description cannot be printed because hugr-py refused to build one of its TYPES (the printer goes
+            # through the real type objects).  Every type description the generators draw lies inside the
+            # property's domain (widths 0..6, element types of the standard extensions), so this is a failure of the
+            # case, reported with its input: an in-domain expression on which nothing was built.
+            return ["(EBool true)", "None", "None", "None", "0%nat", "false"]
         if not obs["built"]:
-            return gapp("CVal", std, e, "None", "None", "None", "0%nat", "false")
+            return [e, "None", "None", "None", "0%nat", "false"]
         oty = gapp("Some", tv.gty(obs["type"]))
         oser = gapp("Some", tv.jval(obs["serial"])) if "serial" in obs else "None"
         if "ports" in obs and obs["const_docs_equal"]:
             ports = gapp("Some", glist([tv.gty(p) for p in obs["ports"]] + [tv.jty(x) for x in obs["datatypes"]]))
-            return gapp("CVal", std, e, oty, oser, ports, gnat(obs["nin"]), gbool(obs["linked"]))
-        return gapp("CVal", std, e, oty, oser, "None", "0%nat", "false")
+            return [e, oty, oser, ports, gnat(obs["nin"]), gbool(obs["linked"])]
+        return [e, oty, oser, "None", "0%nat", "false"]
 
     def nontrivial(self, case, obs):
+        if case["kind"] == "seq":
+            # a history is non-trivial when the value really changed between two observations
+            ds = [step_desc(st) for st in case["steps"]]
+            return any(a != b for a, b in zip(ds, ds[1:]))
         v = case["val"]
         return tv.vdepth(v) >= 1 or v[0] in ("func", "ext")
 
     def describe(self, case, obs):
-        o = dict(obs)
-        if "type" in o:
-            o["type"] = str(o["type"])
-        if "ports" in o:
-            o["ports"] = [str(p) for p in o["ports"]]
-        return {"input": case, "observed": o}
+        def one(ob):
+            o = dict(ob)
+            if "type" in o:
+                o["type"] = str(o["type"])
+            if "ports" in o:
+                o["ports"] = [str(p) for p in o["ports"]]
+            return o
+        if case["kind"] == "seq":
+            return {"input": case, "values": [step_desc(st) for st in case["steps"]],
+                    "observed": {"did": obs["did"], "moments": [one(m) for m in obs["moments"]]}}
+        return {"input": case, "observed": one(obs)}
 
     def signature(self, case, obs, ctx):
+        if case["kind"] == "seq":
+            return "history:" + ">".join(st["leaf"][0] for st in case["steps"])
         v = case["val"]
         if not obs["built"]:
             return f"value:{v[0]}:raises:{obs['exc']}"
         return f"value:{v[0]}" + (":broken" if case.get("broken") else "")
 
     def shrink(self, case):
+        if case["kind"] == "seq":
+            yield from shrink_seq(case)
+            return
         for s in tv.shrink_val(case["val"]):
             yield {**case, "val": s}
 
     def neighbours(self, case, rng):
+        if case["kind"] == "seq":
+            out = [{"kind": "val", "val": step_desc(st)} for st in case["steps"]] + list(shrink_seq(case))
+            return out + [rand_seq(rng) for _ in range(250)]
         out, todo = [], [case["val"]]
         while todo and len(out) < 200:
             x = todo.pop()
@@ -218,12 +716,38 @@ class C14(fw.Prop):
             out.append({"kind": "val", "val": tv.rand_val(rng, rng.choice([1, 2, 3]))})
         for _ in range(100):
             out.append({"kind": "val", "val": tv.rand_val_reqs(rng, rng.choice([0, 1, 2]))})
+        # the value observed a second time after a change, and changed into
+        v = case["val"]
+        for w in tv.child_vals(v)[:3] + [["bool", True]]:
+            out.insert(1, {"kind": "seq", "steps": [{"leaf": v}, {"leaf": w, "lchg": "fresh", "host": "val"}]})
+            out.insert(1, {"kind": "seq", "steps": [{"leaf": w}, {"leaf": v, "lchg": "fresh", "host": "val"}]})
         return out
 
     def distribution(self, cases, observations):
         d = {"depth": {}, "constructors": {}, "broken": 0, "not_built": 0, "int_widths": {},
-             "func_roots": {}, "funcs_declaring_reqs": 0}
+             "func_roots": {}, "funcs_declaring_reqs": 0,
+             # accepted, counted: descriptions the implementation refused to build (by root kind / exception class;
+             # Coq accepts a refusal only outside the property's domain), and std constants whose `extensions`
+             # name more than the defining extension (the model writes exactly that one; only membership is promised)
+             "refused": {}, "std_constants_naming_more_extensions": 0,
+             "histories": {"n": 0, "moments": 0, "leaf_change": {}, "host": {}, "ctx_layers": {}, "value_changed": 0,
+                           "reported_type_changed": 0}}
         for c, o in zip(cases, observations):
+            if c["kind"] == "seq":
+                hd = d["histories"]
+                hd["n"] += 1
+                hd["moments"] += len(c["steps"])
+                for a, b in o["did"][1:]:
+                    hd["leaf_change"][a] = hd["leaf_change"].get(a, 0) + 1
+                    hd["host"][b] = hd["host"].get(b, 0) + 1
+                for st in c["steps"]:
+                    for layer in st.get("ctx", []):
+                        hd["ctx_layers"][layer[0]] = hd["ctx_layers"].get(layer[0], 0) + 1
+                ds = [step_desc(st) for st in c["steps"]]
+                hd["value_changed"] += any(a != b for a, b in zip(ds, ds[1:]))
+                ts = [str(m.get("type")) for m in o["moments"]]
+                hd["reported_type_changed"] += any(a != b for a, b in zip(ts, ts[1:]))
+                continue
             dp = str(tv.vdepth(c["val"]))
             d["depth"][dp] = d["depth"].get(dp, 0) + 1
             for kk, n in tv.vkinds(c["val"]).items():
@@ -237,6 +761,11 @@ class C14(fw.Prop):
                     d["func_roots"][x[1]] = d["func_roots"].get(x[1], 0) + 1
                     d["funcs_declaring_reqs"] += bool(tv.func_reqs(x))
             d["not_built"] += not o["built"]
+            if not o["built"] or "serial" not in o:
+                key = "%s:%s" % (c["val"][0], o.get("exc") or o.get("serial_exc"))
+                d["refused"][key] = d["refused"].get(key, 0) + 1
+            else:
+                d["std_constants_naming_more_extensions"] += more_exts(o["serial"])
             if c["val"][0] == "int":
                 w = str(c["val"][2])
                 d["int_widths"][w] = d["int_widths"].get(w, 0) + 1
